@@ -19,6 +19,10 @@ SYN = ["ber", "ber", "ber", "uper", "oer", "xer"]
 XER_ENABLED = {"xer-ws", "xer-ws-empty", "xer-selfclose"}
 
 KNOWN_CLASSES = {
+    # der_encoder.c: ASN1_DER_MAX_TAGS_COUNT 4 ("System limit on tags count")
+    "tagchain.four-or-more.der": lambda f, s, used: "tagchain>=4" in f,
+    # by-design guard against compression bombs: > 200 zero-width elements are refused by the PER/OER decoders
+    "zero-width-elements.over-200.per-oer": lambda f, s, used: s in ("uper", "oer") and "zero-width>200" in f,
     "set.no-oer-uper": lambda f, s, used: s in ("oer", "uper") and "SET" in f,
     "bitstring.trailing-zero-bits.uper": lambda f, s, used: s == "uper" and "bits.trailing0" in f,
     "int.ub-above-int64.uper": lambda f, s, used: s == "uper" and "int.ub>int64" in f,
@@ -85,9 +89,9 @@ def run_case(sess, mod, tname, t, x, feats, acc):
     refder = ref_ber.encode(mod, t, v)
     replay = make_replay(mod, tname, t, x)
     ch = ListChooser(decisions, XER_ENABLED if syn == "xer" else None)
-    if KNOWN.is_known(PID, "ber.tagchain.mixed-definite-indefinite"):
+    if KNOWN.is_known(PID, "ber.tagchain.mixed-definite-indefinite") and not getattr(acc, "probe", False):
         ch.no_mixed_chain = True
-    k = known_skip(vfeats, syn, ch.used) if raw is None else None
+    k = known_skip(vfeats, syn, ch.used) if raw is None and not getattr(acc, "probe", False) else None
     if k:
         acc.excluded["known:" + k] += 1
         return None
